@@ -285,7 +285,9 @@ func (u *Universe) sortOf(t types.Type) Sort {
 	panic(fmt.Sprintf("sortOf: unsupported type %T %v", t, t))
 }
 
-func sortKey(s Sort) string { return sanitize(strings.NewReplacer("(", "", ")", "", " ", "_").Replace(s)) }
+func sortKey(s Sort) string {
+	return sanitize(strings.NewReplacer("(", "", ")", "", " ", "_").Replace(s))
+}
 
 // zero value of a sort / type
 func (u *Universe) zero(t types.Type) Term {
